@@ -32,6 +32,7 @@ func c05(c *Ctx) {
 	c05R6(c)
 	c05R7(c)
 	c05R8(c)
+	shared(c, "C06", c06R1)
 }
 
 func isResetVal(v ssa.Value) bool {
